@@ -17,7 +17,9 @@ _N = "len(%s)" % _THUNKS
 _NOOP = "noop_rewriter()"
 contract("monkeytype.cli:get_stub", props=["C10", "C01", "C06", "C14", "C13"], theories=TH, pure=False, effects="print",
          params={"args": "Args", "stdout": "Stream", "stderr": "Stream"}, result="Opt[ModuleStub]",
-         assumes={"decoded-traces-are-well-formed": "forall_v(lambda th: implies(decodes(th), DEC(th) is not None and is_dictlike_(tag_(DEC(th), 'Trace').arg_types)"
+         assumes={# argparse stores one of the three members (default REPLICATE, --ignore-existing-annotations / --omit-existing-annotations store a const): cli.main is bounded
+                  "strategy-is-a-member": "args_existing_annotation_strategy(args) is REPLICATE or args_existing_annotation_strategy(args) is IGNORE or args_existing_annotation_strategy(args) is OMIT",
+                  "decoded-traces-are-well-formed": "forall_v(lambda th: implies(decodes(th), DEC(th) is not None and is_dictlike_(tag_(DEC(th), 'Trace').arg_types)"
                                                     " and forall(tag_(DEC(th), 'Trace').arg_types, lambda n: wf_rw(lookup(tag_(DEC(th), 'Trace').arg_types, n)) and lookup(tag_(DEC(th), 'Trace').arg_types, n) is not ELLIPSIS_ and lookup(tag_(DEC(th), 'Trace').arg_types, n) is not None)"
                                                     " and implies(tag_(DEC(th), 'Trace').return_type is not None, wf_rw(tag_(DEC(th), 'Trace').return_type) and tag_(DEC(th), 'Trace').return_type is not ELLIPSIS_)"
                                                     " and implies(tag_(DEC(th), 'Trace').yield_type is not None, wf_rw(tag_(DEC(th), 'Trace').yield_type) and tag_(DEC(th), 'Trace').yield_type is not ELLIPSIS_)))"},
